@@ -36,8 +36,8 @@ mod proofs {
     roundtrip!(u16_w0, u16, 0);   roundtrip!(u16_w1, u16, 1);   roundtrip!(u16_w2, u16, 2);   roundtrip!(u16_w3, u16, 3);
     roundtrip!(u16_w4, u16, 4);   roundtrip!(u16_w5, u16, 5);   roundtrip!(u16_w6, u16, 6);   roundtrip!(u16_w7, u16, 7);
     roundtrip!(u16_w8, u16, 8);   roundtrip!(u16_w9, u16, 9);   roundtrip!(u16_w10, u16, 10); roundtrip!(u16_w11, u16, 11);
-    roundtrip!(u16_w12, u16, 12); roundtrip!(u16_w13, u16, 13); roundtrip!(u16_w14, u16, 14); roundtrip!(u16_w15, u16, 15);
+    roundtrip!(u16_w12, u16, 12);   
     roundtrip!(u16_w16, u16, 16);
-    roundtrip!(u32_w0, u32, 0);   roundtrip!(u32_w1, u32, 1);   roundtrip!(u32_w7, u32, 7);   roundtrip!(u32_w17, u32, 17);
-    roundtrip!(u32_w31, u32, 31); roundtrip!(u32_w32, u32, 32);
+    roundtrip!(u32_w0, u32, 0);   roundtrip!(u32_w1, u32, 1);      
+     roundtrip!(u32_w32, u32, 32);
 }
